@@ -391,7 +391,7 @@ class ArraySizedGen:
         return out
 
     def _small_growth(self, quick):
-        out = []
+        out = self._limit_probes()
         for cap in (1, 2, 3, 4):
             for ex in FACTORS:
                 for dl in (1, 17):
@@ -409,6 +409,7 @@ class ArraySizedGen:
                     out.append(base + [f"get_at {i}", f"peek {i}", f"remove_at {i}", f"replace_at 9 {i}", f"add_at 9 {i}",
                                        f"swap_at {i} 0", f"swap_at 0 {i}", f"swap_at {i} {i}", f"mk_sub {i} {i} to=1", f"mk_sub 0 {i} to=2", "destroy"])
                 pass
+        out += self._limit_probes()
         # accepted extreme capacities make the harness report an absurd request: `reject` focus only
         for line in (self._extreme_news() if extreme else []):
             out.append([line, "add 1", "get_at 0", "size", "destroy"])
@@ -418,6 +419,16 @@ class ArraySizedGen:
                 base = [f"new esize={dl} cap=2 exp=2"] + [f"add {i + 1}" for i in range(n)]
                 out.append(base + [f"add {n}", f"remove {n}", "remove 77", "index_of 77", "contains 77", "get_last", "remove_last", "filter_mut p=all",
                                    "mk_filter p=all to=1", "it_new", "it_remove", "it_replace 4", "destroy"])
+        return out
+
+    def _limit_probes(self):
+        """huge expansion factors: the first growth asks for a capacity whose byte count exceeds
+        CC_MAX_ELEMENTS and must be refused with CC_ERR_MAX_CAPACITY (repair A10), nothing allocated"""
+        out = []
+        for dl, cap, ex in ((8, 1, 2**61), (8, 2, 2**61), (17, 1, 2**60), (3, 1, 2**63), (2, 1, 2**63), (2, 3, 2**62), (17, 2, 2**60)):
+            ops = [f"new esize={dl} cap={cap} exp={ex}"] + [f"add {i + 1}" for i in range(cap)]
+            ops += ["add 77", "add_at 78 0", "capacity", "get_last", "remove_at 0", "add 79", "add 80", "trim_capacity", "add 81", "destroy"]
+            out.append(ops)
         return out
 
     def _extreme_news(self):
